@@ -1499,6 +1499,13 @@ def three_way(ctx, scns, name, given=None):
                     and map_late_iterable(s["exprs"][op[1]]):
                 stats["map_late_iterable_tolerated"] = stats.get("map_late_iterable_tolerated", 0) + 1
                 ok_eval = ok_sem = True
+            if not (ok_eval and ok_sem) and res.startswith("err:") and b.startswith("err:") and c.startswith("err:") \
+                    and late_lazy(s["exprs"][op[1]]):
+                # a generator handed out by a coalesce member / held in a collection is consumed later than it is made:
+                # when it AND a sibling fail, labrea and the model (which forces an element when it stores it) surface
+                # different failures; the property fixes no order there (cause_comparable) - all three fail, tolerated
+                stats["late_lazy_failure_order_tolerated"] = stats.get("late_lazy_failure_order_tolerated", 0) + 1
+                ok_eval = ok_sem = True
             if not (ok_eval and ok_sem):
                 one = dict(s, exprs=[s["exprs"][op[1]]], ops=[("evaluate", 0, False, False, op[4])])
                 stats["disagreeing"].add(id(s))
